@@ -1,5 +1,5 @@
 """Helpers shared by rule modules: guard tables in normal form, table comparison."""
-from bpsa.normal import canon, accept_atoms, bool_atom, atom_vars, variant_atom
+from bpsa.normal import canon, accept_atoms, bool_atom, atom_vars, variant_atom, cmp_atom
 from bpsa.terms import short, walk, TERM_IDX, T
 import copy
 import re
@@ -111,6 +111,48 @@ def _closure_of(t):
     return t if t.tag == 'closure' else None
 
 
+_INT_TRYFROM = re.compile(r'<impl (?:std::convert::)?TryFrom<(?:u8|u16|u32|u64|u128|usize)> for (?:u8|u16|u32|u64|u128|usize)>::try_from$')
+_WIDTH = {'u8': 8, 'u16': 16, 'u32': 32, 'u64': 64, 'u128': 128, 'usize': 64}
+
+
+def _checked_shift_test(ctx, c, positive):
+    """`x.checked_shr(s).is_some_and(|e| P(e))` used as a rejecting test is `s < WIDTH && P(x >> s)` (checked_shr is None exactly for
+    s >= WIDTH): the accept condition is not-P(x >> s) under s <= WIDTH - 1, the row the plain spelling gives.  A shift amount that went
+    through an integer `try_from` is the number it converts (a failing conversion is a number >= WIDTH).  Returns (atoms, extra context)
+    or None."""
+    if positive:
+        return None
+    while c.tag in ('mut', 'via'):
+        c = c[1] if c.tag == 'mut' else c[2]
+    if c.tag != 'call' or not c[1].endswith('::is_some_and') or len(c[2]) != 2:
+        return None
+    opt, f = c[2]
+    while opt.tag in ('mut', 'via'):
+        opt = opt[1] if opt.tag == 'mut' else opt[2]
+    if opt.tag != 'call' or opt[1].split('::')[-1] not in ('checked_shr',) or len(opt[2]) != 2:
+        return None
+    m = re.search(r'<impl (u8|u16|u32|u64|u128|usize)>::checked_shr$', opt[1])
+    if not m:
+        return None
+    width = _WIDTH[m.group(1)]
+    x, sh = opt[2]
+    while sh.tag in ('mut', 'via'):
+        sh = sh[1] if sh.tag == 'mut' else sh[2]
+    # (the shift amount of checked_shr is a u32: a `try_from` that produces it converts a number into u32)
+    while sh.tag == 'call' and (_INT_TRYFROM.search(sh[1]) or sh[1] == 'std::convert::TryFrom::try_from' or sh[1].split('::')[-1] in ('ok',)) and len(sh[2]) == 1:
+        sh = sh[2][0]
+        while sh.tag in ('mut', 'via'):
+            sh = sh[1] if sh.tag == 'mut' else sh[2]
+    fc = f[1] if f.tag == 'mut' else f
+    if fc.tag != 'closure':
+        return None
+    inner = ctx.eng.apply(fc, (T('binop', 'Shr', x, sh),))
+    atoms = bool_atom(inner, positive=False)
+    if any(a[0] == 'unknown' for a in atoms):
+        return None
+    return atoms, (cmp_atom('Le', sh, T('const', width - 1)),)
+
+
 def _rows(ctx, body, xf, octx, oeff, site_bb, depth, rows, parent):
     """guard rows of `body` with every term passed through xf (parameter substitution + helper expansion), prefixed by the
     context / effectiveness of the place the body is called from; recursively spliced with the rows of crate-local helpers,
@@ -124,6 +166,10 @@ def _rows(ctx, body, xf, octx, oeff, site_bb, depth, rows, parent):
         eff = _combine_eff(oeff, effectiveness(ctx, body, g))
         ge = _with_cond(g, xf(c0), site_bb)
         row = {'guard': ge, 'ctx': pc, 'atoms': accept_atoms(ge), 'eff': eff, 'parent': parent, 'spliced': parent is not None}
+        ref = _checked_shift_test(ctx, ge.cond, ge.reject_when_false()) if (ge.reject_when_true() or ge.reject_when_false()) else None
+        if ref is not None:
+            row['atoms'], extra = ref
+            row['ctx'] = tuple(sorted(set(pc) | set(extra), key=repr))
         rows.append(row)
         me = len(rows) - 1
         # a boolean flag with several definitions (`let bad = a && b; if bad {..}`, the result of a spliced predicate helper): one row
@@ -234,6 +280,10 @@ def _rows(ctx, body, xf, octx, oeff, site_bb, depth, rows, parent):
                         okall = False
                         break
                     pc3 = tuple(sorted(set(pc2) | set(path_ctx(ctx, cb, dbb, set(), xf2)), key=repr))
+                    ref = _checked_shift_test(ctx, ta, want) if ta.tag != 'const' else None
+                    if ref is not None:
+                        atoms = ref[0]
+                        pc3 = tuple(sorted(set(pc3) | set(ref[1]), key=repr))
                     new_rows.append({'guard': _with_cond(g, ta, sb), 'ctx': pc3, 'atoms': atoms, 'eff': _combine_eff(eff, 'forall'), 'parent': me, 'spliced': True})
                 if okall:
                     rows.extend(new_rows)
